@@ -9,7 +9,8 @@
           a<0|1> produce_anonymous  v<n> wbxml_version  g<n> xml_gen_type  n<n> indent  l<n> set_lang
           p<0|1> text public id
           w<i>[!k] / x<i>[!k]  build the tree of document i (a PI node, which no encoder accepts, is put under
-                               its k-th element if !k is given), set it, encode to WBXML / XML, reset
+                               its k-th element if !k is given, under its k-th CDATA node if !c<k> is given: the
+                               run then fails while a CDATA section is open), set it, encode to WBXML / XML, reset
      answer per run:  <reused>=<fresh>=<shimmed>~<flags>    each side: status/hash of output/length/pointer non-NULL
        flags = state of the reused encoder when the run started, relative to the caller's settings and the
                creation-time run state: N strstbl NULL, I indent != 0, L lang, U use_strtbl, C output_charset,
@@ -110,6 +111,20 @@ static WBXMLTreeNode *nth_element(WBXMLTreeNode *n, int *k) {
     }
     return NULL;
 }
+/* the same over CDATA nodes (poison "!c<k>": the failure happens while a CDATA section is open) */
+static WBXMLTreeNode *nth_cdata(WBXMLTreeNode *n, int *k) {
+    WBXMLTreeNode *r;
+    for (; n != NULL; n = n->next) {
+        if (n->type == WBXML_TREE_CDATA_NODE) { if (*k == 0) return n; (*k)--; }
+        if (n->children && (r = nth_cdata(n->children, k)) != NULL) return r;
+    }
+    return NULL;
+}
+static int count_cdata(WBXMLTreeNode *n) {
+    int c = 0;
+    for (; n != NULL; n = n->next) { if (n->type == WBXML_TREE_CDATA_NODE) c++; c += count_cdata(n->children); }
+    return c;
+}
 static int count_elements(WBXMLTreeNode *n) {
     int c = 0;
     for (; n != NULL; n = n->next) { if (n->type == WBXML_TREE_ELEMENT_NODE) c++; c += count_elements(n->children); }
@@ -117,6 +132,7 @@ static int count_elements(WBXMLTreeNode *n) {
 }
 
 /* tree of document i; poison >= 0: a PI node (WBXML_ERROR_NOT_IMPLEMENTED in both generators) under an element */
+#define POISON_CDATA 100000      /* poison >= POISON_CDATA: under the (poison - POISON_CDATA)-th CDATA node */
 static WBXMLTree *make_tree(int i, int poison, WBXMLError *err) {
     WBXMLTree *t = NULL;
     C15Doc *d = &c15_docs[i];
@@ -124,8 +140,9 @@ static WBXMLTree *make_tree(int i, int poison, WBXMLError *err) {
                             : wbxml_tree_from_wbxml(d->data, (WB_ULONG) d->len, WBXML_LANG_UNKNOWN, WBXML_CHARSET_UNKNOWN, &t);
     if (*err != WBXML_OK) return NULL;
     if (poison >= 0 && t->root) {
-        int c = count_elements(t->root), k = c ? poison % c : 0;
-        WBXMLTreeNode *at = nth_element(t->root, &k), *pi = wbxml_tree_node_create(WBXML_TREE_PI_NODE);
+        int in_cd = poison >= POISON_CDATA && count_cdata(t->root) > 0;
+        int c = in_cd ? count_cdata(t->root) : count_elements(t->root), k = c ? (poison % POISON_CDATA) % c : 0;
+        WBXMLTreeNode *at = in_cd ? nth_cdata(t->root, &k) : nth_element(t->root, &k), *pi = wbxml_tree_node_create(WBXML_TREE_PI_NODE);
         if (at && pi) { if (!wbxml_tree_node_add_child(at, pi)) wbxml_tree_node_destroy(pi); }
         else if (pi) wbxml_tree_node_destroy(pi);
     }
@@ -187,7 +204,7 @@ void c15_cmd_encoder(int nt, char **tok, int dump_mode) {
         if (t[0] == 'w' || t[0] == 'x') {
             int doc = atoi(t + 1), poison = -1, to_xml = (t[0] == 'x');
             char *bang = strchr(t, '!');
-            if (bang) poison = atoi(bang + 1);
+            if (bang) poison = (bang[1] == 'c') ? POISON_CDATA + atoi(bang + 2) : atoi(bang + 1);
             if (doc < 0 || doc >= c15_ndocs) { printf(" bad"); continue; }
             if (dump_mode) {
                 WBXMLError terr, st; WB_UTINY *out = NULL; WB_ULONG len = 0;
